@@ -32,6 +32,7 @@ RULE = (
     "remove_redundant_coefficients / remove_redundant_names. non-trivial = the result has >= 2 terms, or the "
     "operation removed a term or a name, or the input was rejected."
 )
+LEVEL_TEXT += (" Constructors with an explicit allocation= (N, N+1, 2N-1, 2N, 3N slots, also followed by hsplit/vsplit/+), from exponents without names, and from numpy arrays are part of the catalogue.")
 ASSUMPTIONS = [
     "size-0 results are excluded (known finding: size-0 arrays lose their shape, see C10/C12)",
     "term order of a rebuilt polynomial is not asserted, only the term set",
